@@ -4410,6 +4410,7 @@ class ParseCtx:
                 'r': '\r',
                 't': '\t',
                 'b': '\b',
+                '0': '\x00',
                 '\'': '\''
             }.get(char_const[2], char_const[2])
 
